@@ -217,6 +217,26 @@ def _fresh(bound):
     return ('v', m + 1)
 
 
+def _mentions(t, v) -> bool:
+    if t == v:
+        return True
+    return isinstance(t, tuple) and any(_mentions(x, v) for x in t if isinstance(x, tuple))
+
+
+def mk_any(coll, body):
+    """EXISTS x in coll: body.   `any(x == a for x in C)` (also `x is a or x == a`) is membership `a in C`."""
+    if body == FALSE:
+        return FALSE
+    if isinstance(body, tuple) and body and body[0] == 'eq':
+        lv = _max_v(body)
+        if lv >= 0:
+            v = ('v', lv)
+            for a, b in ((body[1], body[2]), (body[2], body[1])):
+                if a == v and not _mentions(b, v) and not _mentions(coll, v):
+                    return ('in', b, coll)
+    return ('any', coll, body)
+
+
 def is_formula(t) -> bool:
     return t[0] in ('and', 'or', 'not', 'bf') or t in (TRUE, FALSE)
 
@@ -448,7 +468,7 @@ class Extractor:
         if t[0] == 'lit':
             return FALSE if t[2] in ('0', '0.0', "''") else TRUE
         if t[0] == 'first':
-            return ('any', t[1], t[2])      # the first match exists iff some element matches
+            return mk_any(t[1], t[2])      # the first match exists iff some element matches
         if _empty_container(t):
             return FALSE
         if not is_formula(t) and _find_ite(t) is not None:
@@ -487,7 +507,7 @@ class Extractor:
             return TRUE
         for x, y in ((a, b), (b, a)):
             if x[0] == 'first' and y == NONE:
-                return mk_not(('any', x[1], x[2]))
+                return mk_not(mk_any(x[1], x[2]))
         if a[0] in ('const', 'lit') and b[0] in ('const', 'lit'):
             if a[0] == 'lit' and b[0] == 'lit' and {a[1], b[1]} <= {'int', 'float'}:
                 return TRUE if float(a[2]) == float(b[2]) else FALSE
@@ -557,8 +577,8 @@ class Extractor:
                     cf = self.truth(self.expr(c, p, b2))
                     body = mk_and(cf, body) if n == 'any' else mk_or(mk_not(cf), body)
                 if n == 'any':
-                    return ('any', coll, canon(body))
-                return mk_not(('any', coll, canon(mk_not(body))))
+                    return mk_any(coll, canon(body))
+                return mk_not(mk_any(coll, canon(mk_not(body))))
             if n in ('list', 'tuple') and len(args) == 1:
                 return args[0]
             if self.strip_copies and n in ('dict', 'set', 'sorted') and len(args) == 1:
@@ -630,6 +650,7 @@ class Extractor:
         if self.depth >= 3 or fdef is self.fnode:
             return None
         sub = Extractor(fdef, self.inline, strip_copies=self.strip_copies)
+        sub._parent = self
         sub.depth = self.depth + 1
         names = [x.arg for x in fdef.args.posonlyargs + fdef.args.args]
         if len(names) < len(argterms):
@@ -720,10 +741,10 @@ class Extractor:
         rest = [self.truth(self.expr(x, p, b2)) for x in body.value.values[1:]]
         if isinstance(op, ast.Or):
             f = mk_or(*rest)
-            val = TRUE if init else ('any', coll, canon(f))
+            val = TRUE if init else mk_any(coll, canon(f))
         else:
             f = mk_and(*rest)
-            val = FALSE if not init else mk_not(('any', coll, canon(mk_not(f))))
+            val = FALSE if not init else mk_not(mk_any(coll, canon(mk_not(f))))
         self.assign(a.targets[0], val, p, bound)
         return p
 
@@ -738,6 +759,44 @@ class Extractor:
         if isinstance(st, (ast.Assert, ast.Pass)):
             return True
         return False
+
+    # ---------------------------------------------------------------- locally created containers
+    @staticmethod
+    def _is_container_literal(v) -> bool:
+        if isinstance(v, ast.Dict):
+            return all(k is not None for k in v.keys)
+        if isinstance(v, ast.List) and not v.elts:
+            return True
+        return isinstance(v, ast.Call) and isinstance(v.func, ast.Name) and v.func.id in ('dict', 'list') \
+            and not v.args and not v.keywords
+
+    def _allocates(self, st) -> bool:
+        tg = st.targets[0] if isinstance(st, ast.Assign) else st.target
+        if isinstance(st, ast.Assign) and len(st.targets) != 1:
+            return False
+        return isinstance(tg, ast.Name) and self._is_container_literal(st.value)
+
+    def alloc(self, v, p: Path, bound, name=None):
+        """a dict literal / empty list bound to a local is an OBJECT: its content is a set of writes.  Where the
+        object ends up (stored under a key / attribute of something else) becomes its name when the path is
+        summarised (see resolve_fresh): building then attaching == attaching then building."""
+        root = self
+        while getattr(root, '_parent', None) is not None:
+            root = root._parent
+        root._new = getattr(root, '_new', 0) + 1
+        o = name if name is not None else ('new', root._new)
+        if isinstance(v, ast.Dict):
+            p.effects.append(('mk', o, 'dict'))
+            for k, val in zip(v.keys, v.values):
+                K = canon(self.expr(k, p, bound))
+                if isinstance(val, ast.Dict) and all(x is not None for x in val.keys):
+                    self.alloc(val, p, bound, ('item', o, K))
+                else:
+                    p.effects.append(('setitem', o, K, canon(self.expr(val, p, bound))))
+        else:
+            kind = 'list' if isinstance(v, ast.List) or v.func.id == 'list' else 'dict'
+            p.effects.append(('mk', o, kind))
+        return o
 
     def assign(self, target, val, p: Path, bound):
         if isinstance(target, ast.Name):
@@ -788,6 +847,11 @@ class Extractor:
             out.append(rest)
             return out
         if isinstance(st, ast.Return):
+            if st.value is not None and self.depth > 0 and self._is_container_literal(st.value):
+                # a helper that builds and returns a container: the caller goes on filling THAT object
+                p.ret = self.alloc(st.value, p, bound)
+                p.done = True
+                return [p]
             p.ret = self.expr(st.value, p, bound) if st.value is not None else NONE
             p.done = True
             return [p]
@@ -795,6 +859,10 @@ class Extractor:
             p.ret = ('raise',)
             p.done = True
             p.raised = True
+            return [p]
+        if isinstance(st, (ast.Assign, ast.AnnAssign)) and st.value is not None and self._allocates(st):
+            tg = st.targets[0] if isinstance(st, ast.Assign) else st.target
+            p.env[tg.id] = self.alloc(st.value, p, bound)
             return [p]
         if isinstance(st, ast.Assign):
             sp = self.inline_effectful(st.value, p, bound)
@@ -885,12 +953,17 @@ class Extractor:
         fd = self.local_defs[c.func.id]
         names = [x.arg for x in fd.args.posonlyargs + fd.args.args]
         b2 = dict(bound)
-        # closure: the nested function sees the enclosing locals
+        # closure: the nested function sees the enclosing locals - except the names it binds itself
+        own = {x.id for x in ast.walk(fd) if isinstance(x, ast.Name) and isinstance(x.ctx, ast.Store)}
+        for k in own:
+            b2.pop(k, None)
         for k, v in p.env.items():
-            b2.setdefault(k, v)
+            if k not in own:
+                b2.setdefault(k, v)
         for nm, a in zip(names, c.args):
             b2[nm] = self.expr(a, p, bound)
         sub = Extractor(fd, self.inline, strip_copies=self.strip_copies)
+        sub._parent = self
         sub.params = self.params            # free names that are parameters of the outer function
         sub.depth = self.depth + 1
         sub.local_defs = dict(self.local_defs)
@@ -930,6 +1003,7 @@ class Extractor:
                 and self.depth < 3:
             fd = self.inline[fn.id]
             sub = Extractor(fd, self.inline)
+            sub._parent = self
             sub.depth = self.depth + 1
             names = [x.arg for x in fd.args.posonlyargs + fd.args.args]
             try:
@@ -1051,7 +1125,7 @@ class Extractor:
                 return [pr]
             for q in returning:
                 pr = p.clone()
-                ex = ('any', canon(coll), canon(q.cond))
+                ex = mk_any(canon(coll), canon(q.cond))
                 pr.cond = mk_and(p.cond, ex)
                 pr.ret = q.ret
                 pr.done = True
@@ -1077,8 +1151,103 @@ def _boolish(t):
         t[0] == 'const' and isinstance(t[1], bool))
 
 
+def _is_new(t) -> bool:
+    return isinstance(t, tuple) and len(t) == 2 and t[0] == 'new'
+
+
+def _subst_many(t, sub):
+    if not isinstance(t, tuple) or not t:
+        return t
+    if t in sub:
+        return sub[t]
+    new = tuple(_subst_many(x, sub) if isinstance(x, tuple) else x for x in t)
+    if new and new[0] == 'table' and new != t:
+        return recanon_table(new)
+    if new and new[0] == 'bf' and new != t:
+        return recanon_bf(new)
+    return new
+
+
+def recanon_bf(t):
+    """('bf', atoms, bits) whose atoms were rewritten: restore the sorted-atom order."""
+    atoms, bits = list(t[1]), t[2]
+    order = sorted(range(len(atoms)), key=lambda i: repr(atoms[i]))
+    if order == list(range(len(atoms))):
+        return t
+    n = len(atoms)
+    newbits = []
+    for nb in itertools.product((False, True), repeat=n):
+        old = [False] * n
+        for newpos, oldpos in enumerate(order):
+            old[oldpos] = nb[newpos]
+        idx = 0
+        for b in old:
+            idx = idx * 2 + (1 if b else 0)
+        newbits.append(bits[idx])
+    return ('bf', tuple(atoms[i] for i in order), tuple(newbits))
+
+
+def recanon_table(t):
+    atoms, rows = list(t[1]), t[2]
+    order = sorted(range(len(atoms)), key=lambda i: repr(atoms[i]))
+    n = len(atoms)
+    newrows = []
+    for nb in itertools.product((False, True), repeat=n):
+        old = [False] * n
+        for newpos, oldpos in enumerate(order):
+            old[oldpos] = nb[newpos]
+        idx = 0
+        for b in old:
+            idx = idx * 2 + (1 if b else 0)
+        newrows.append(_resort_outcome(rows[idx]))
+    return ('table', tuple(atoms[i] for i in order), tuple(newrows))
+
+
+def _resort_outcome(o):
+    if not (isinstance(o, tuple) and o and o[0] == 'out'):
+        return o
+    return ('out', tuple(sorted(o[1], key=repr)), _sort_effects(list(o[2])), o[3])
+
+
+def resolve_fresh(q):
+    """name every locally created container by the place it is finally stored at (dict key / attribute of
+    another object); the storing write itself is dropped, a ('mk', place, kind) marker records the creation."""
+    sub = {}
+    for e in q.effects:
+        if e[0] == 'setitem' and _is_new(e[3]) and e[3] not in sub and not _mentions(e[1], e[3]):
+            sub[e[3]] = ('item', e[1], e[2])
+        elif e[0] == 'set' and _is_new(e[2]) and e[2] not in sub:
+            sub[e[2]] = ('attr', e[1][0], e[1][1])
+    if not sub:
+        return q
+    # chains: o2 stored in o1, o1 stored in the heap
+    for _ in range(6):
+        changed = False
+        for k in list(sub):
+            nv = _subst_many(sub[k], {x: y for x, y in sub.items() if x != k})
+            if nv != sub[k]:
+                sub[k] = nv
+                changed = True
+        if not changed:
+            break
+    q2 = q.clone()
+    effs = []
+    for e in q.effects:
+        if e[0] == 'setitem' and e[3] in sub and sub[e[3]] == _subst_many(('item', e[1], e[2]), sub):
+            continue
+        if e[0] == 'set' and e[2] in sub:
+            continue
+        effs.append(_subst_many(e, sub))
+    q2.effects = effs
+    q2.cond = _subst_many(q.cond, sub)
+    if q.ret is not None:
+        q2.ret = _subst_many(q.ret, sub)
+    return q2
+
+
 def canonical_table(paths, drop_env=False):
     """decision table: essential atoms (sorted) x outcome per valuation."""
+    paths = [resolve_fresh(q) for q in paths if q.cond != FALSE]
     paths = [q for q in paths if q.cond != FALSE]
     # boolean-return lifting: a predicate written with early returns equals the one returning a formula
     if paths and all(not [e for e in q.effects if e[0] != 'continue'] and q.ret is not None
@@ -1134,25 +1303,77 @@ def outcome(q: Path):
             effs.append(e)
     sets = tuple(sorted(((loc, v) for loc, v in final.items()
                          if v != ('attr', loc[0], loc[1])), key=repr))
-    # primitive container effects on pairwise distinct targets commute: sort each maximal run of them
-    prim = ('setitem', 'append', 'extend', 'delitem')
+    return ('out', sets, _sort_effects(effs), canon(q.ret) if q.ret is not None else NONE)
+
+
+PRIM = ('setitem', 'append', 'extend', 'delitem', 'mk')
+
+
+def _write_targets(e, acc) -> bool:
+    """container places written by effect e (recursively for per-element loops); False when e does anything
+    else (calls, exits): such an effect is a barrier for re-ordering."""
+    k = e[0]
+    if k in ('setitem', 'delitem'):
+        acc.append((e[1], e[2]))
+        return True
+    if k in ('append', 'extend', 'mk'):
+        acc.append((e[1], None))
+        return True
+    if k == 'foreach':
+        tab = e[2]
+        for row in tab[2]:
+            if not (isinstance(row, tuple) and row and row[0] == 'out'):
+                continue
+            if row[1] or row[3] not in (NONE, None):
+                return False
+            for x in row[2]:
+                if not _write_targets(x, acc):
+                    return False
+        return True
+    return False
+
+
+def _expand_dict_values(effs):
+    """d[k] = {'a': x, 'b': {...}}   ==   d[k] = {} ; d[k]['a'] = x ; d[k]['b'] = {} ; ...   (one spelling)"""
+    out = []
+    for e in effs:
+        if e[0] == 'setitem' and isinstance(e[3], tuple) and e[3] and e[3][0] == 'dict':
+            place = ('item', e[1], e[2])
+            sub = [('mk', place, 'dict')] + [('setitem', place, k, v) for k, v in e[3][1]]
+            out.extend(_expand_dict_values(sub))
+        else:
+            out.append(e)
+    return out
+
+
+def _sort_effects(effs):
+    """maximal runs of container writes are put in a canonical order: writes to different places commute (no
+    two names for one container inside these small builders); writes to the SAME place keep their order."""
+    effs = _expand_dict_values(effs)
     out, run = [], []
 
     def flush():
-        targets = [(e[1], e[2]) if e[0] in ('setitem', 'delitem') else (e[1],) for e in run]
-        if len(set(map(repr, targets))) == len(targets):
-            out.extend(sorted(run, key=repr))
-        else:
-            out.extend(run)
+        if not run:
+            return
+        keyed = []
+        for idx, (e, tg) in enumerate(run):
+            keyed.append((e, tg, idx))
+        # same place -> keep relative order: sort by (first target repr, original index within that target)
+        def place(tg):
+            return repr(sorted(map(repr, tg))[:1])
+        keyed.sort(key=lambda x: (place(x[1]), x[2]))
+        out.extend(k[0] for k in keyed)
         run.clear()
     for e in effs:
-        if e[0] in prim:
-            run.append(e)
-        else:
-            flush()
-            out.append(e)
+        acc = []
+        if e[0] in PRIM or e[0] == 'foreach':
+            if _write_targets(e, acc):
+                run.append((e, acc))
+                continue
+        flush()
+        out.append(e)
     flush()
-    return ('out', sets, tuple(out), canon(q.ret) if q.ret is not None else NONE)
+    return tuple(out)
 
 
 def table_of(fnode, inline=None, strip_copies=False):
@@ -1329,6 +1550,8 @@ def _root(t):
 
 
 def _fresh_container(t) -> bool:
+    if _is_new(t):
+        return True
     return isinstance(t, tuple) and bool(t) and (
         t[0] in ('list', 'dict', 'dictcomp', 'filtermap') or
         (t[0] == 'call' and t[1] in ('set', 'dict', 'list', 'tuple', 'frozenset', 'defaultdict', 'Counter')))
